@@ -155,6 +155,16 @@ impl<'a> Cx<'a> {
     lean
   }
 
+  /// `const NAME: T = e;` inside a function body, read as `let NAME: T = e;`
+  pub fn local_const(&mut self, c: &ItemConst) -> R<Vec<String>> {
+    let text = format!("let {} : {} = {};", c.ident, toks(&c.ty), toks(&c.expr));
+    let st: Stmt = syn::parse_str(&text).map_err(|e| format!("local const: {}", e))?;
+    match &st {
+      Stmt::Local(l) => self.local(l),
+      _ => Err("local const".into()),
+    }
+  }
+
   pub fn local(&mut self, l: &Local) -> R<Vec<String>> {
     let init = l.init.as_ref().ok_or("let without initialiser")?;
     if init.diverge.is_some() {
@@ -427,6 +437,10 @@ impl<'a> Cx<'a> {
     match first {
       Stmt::Local(l) => {
         lines = self.local(l)?;
+      }
+      Stmt::Item(Item::Const(c)) => {
+        // a function-local constant is a `let`
+        lines = self.local_const(c)?;
       }
       Stmt::Item(_) => {
         // declarations (use, struct, impl): no run-time effect
